@@ -43,7 +43,7 @@ for p in props:
         'evidence_file': '/verif/evidence/%s.json' % pid,
         'replay_cmd_template': 'cat {path}',
         'engine': 'coq-proof+correspondence',
-        'level_claimed': {'category': 'proof', 'text': mod.LEVEL, 'design_ref': 'DESIGN.md section 7 ' + pid},
+        'level_claimed': {'category': 'proof', 'text': mod.LEVEL, 'design_ref': 'DESIGN.md section 7 ' + pid + ' (plan) and section 13.5 (as proved)'},
         'level_note': 'Trusted: Coq 8.16.1 kernel + VM; no axioms (Print Assumptions: closed under the global context); tools/rust2coq.py; extraction (ExtrOcamlBasic only) + OCaml driver; Rust harness; hand transcriptions named in DESIGN.md section 9.' + (' ' + mod.NOTE if hasattr(mod, 'NOTE') else ''),
         'technique': TECH[pid],
     })
@@ -57,7 +57,7 @@ m = {
     'engines': [{'name': 'coq-proof+correspondence', 'path': '/verif/check', 'serves_properties': claimed,
                  'kind_free_text': 'Coq 8.16.1 theorems over a model regenerated from /repo (tools/rust2coq.py) and hand-written (coq/theories/Model), tied to the code by a differential run of the extracted model against the real library (harness/)'}],
     'checks': checks,
-    'notes': 'Genuine defects found and repaired: see known_findings.json and DESIGN.md section 8.',
+    'notes': 'Genuine defects found and repaired (12 fix: commits in /repo) and one recorded known finding (C12): see known_findings.json and DESIGN.md sections 8 and 13.3. Seeded changes used to test the checks: /verif/seeded (80, all caught; DESIGN.md 13.4).',
     'not_applicable': na,
 }
 json.dump(m, open(os.path.join(V, 'MANIFEST.json'), 'w'), indent=1)
